@@ -428,6 +428,9 @@ def gen_key(rng, init):
 def gen_history(rng, init, maxlen):
     n = rng.choice((rng.randint(1, min(8, maxlen)), rng.randint(min(5, maxlen), min(25, maxlen)), rng.randint(min(20, maxlen), maxlen)))
     pool = [gen_key(rng, init) for _ in range(rng.randint(1, 8))]
+    if rng.random() < 0.3:        # look-alikes: the same key with trailing blanks (the writer's pad byte)
+        for _ in range(rng.randint(1, 3)):
+            pool.append(rng.choice(pool) + ' ' * rng.choice((1, 1, 2, 3, 7, 8)))
     ops = []
     for _ in range(n):
         r = rng.random()
@@ -468,6 +471,16 @@ def corpus():
     for k in (' ', 'a ', '  a  ', '\x00', 'a\x00b', '\n', '"', js, 'abcd', 'abc', 'abcde'):
         cs.append([['w', k, v1, t2], ['r', k], ['o'], ['w', k, v2, t1], ['o'], ['r', k]])
     cs.append([['w', 'a', v1, t1], ['w', 'a ', v2, t2], ['w', 'a  ', t1, v1], ['o'], ['r', 'a'], ['r', 'a '], ['r', 'a  ']])
+    # keys that end in blanks next to their blank-less look-alikes (the pad byte is a blank, too): all distinct keys, written,
+    # reopened, written again, reopened, read — in every order of creation, at every length residue
+    for stem in ('k', 'abc', 'abcd', 'kéy', 'seven_b', ''):
+        fam = [stem, stem + ' ', stem + '  ', stem + ' ' * 8]
+        for order in (fam, fam[::-1], [fam[1], fam[0], fam[3], fam[2]]):
+            cs.append([['w', k, v1 + i, t1 + i] for i, k in enumerate(order)] + [['o']] +
+                      [['w', k, v2 + i, t2 + i] for i, k in enumerate(order)] + [['o']] + [['r', k] for k in fam] +
+                      [['w', fam[1], t1, v1], ['o'], ['r', fam[0]], ['r', fam[1]]])
+        cs.append([['w', fam[1], v1, t1], ['o'], ['w', fam[1], v2, t2], ['o'], ['r', fam[1]]])
+        cs.append([['r', fam[2]], ['o'], ['r', fam[2]], ['w', fam[0], v1, t1], ['o'], ['w', fam[2], v2, t2], ['r', fam[0]]])
     # every witness bit pattern as value and as timestamp
     cs.append([['w', 'k%d' % i, b, WITNESS_BITS[-1 - i][1]] for i, (_, b) in enumerate(WITNESS_BITS)] + [['o']] +
               [['r', 'k%d' % i] for i in range(len(WITNESS_BITS))])
@@ -516,6 +529,8 @@ def exhaustive_alphabet():
 def stats(ctx, init, ops, real):
     ctx.count('init=%d' % init)
     keys = {kstr(o[1]) for o in ops if o[0] != 'o'}
+    if any(k.endswith(' ') and k.rstrip(' ') in keys for k in keys):
+        ctx.count('key-trailing-blank-next-to-look-alike')
     for k in keys:
         e = k.encode('utf-8')
         ctx.count('key-bytes%%8=%d' % (len(e) % 8))
